@@ -472,7 +472,7 @@ def main():
     scratch = os.path.join(SCRATCH_BASE, f'smoltcp-verif.{pid}.{os.getpid()}')
     os.makedirs(scratch, exist_ok=True)
     out_base = os.environ.get('VERIF_OUT', VERIF)      # seeded-change evaluation writes elsewhere so that committed evidence stays that of /repo
-    evidence_path = os.path.join(out_base, 'evidence', pid + '.json')
+    evidence_path = os.path.join(out_base, 'evidence', pid + ('.partial.json' if args.only else '.json'))   # a run restricted with --only never replaces the property's evidence
     replay_dir = os.path.join(out_base, 'replays', pid)
 
     if args.replay:
